@@ -9,7 +9,8 @@ RULE = ("exhaustive matrix: (read, write, connect) in {None, 0, 1 ns, 1 ms, u64:
         "over {omitted, 0, 00, +0, 1, u64::MAX, 2^64, -1, 1.5, abc, empty, nan, inf, 1e30, 1e-10, 0.0}^3 x retries spellings; Default. Every accepted value is then "
         "used to open a real UDP and a real TCP socket (apply_timeout's unwraps and connect_timeout are live) and, with the extreme "
         "retry counts, for one scripted query per modelled protocol family; the extreme durations (u64::MAX s, 1 ns, None, mixed) "
-        "on the largest answered exchanges of every family. Oracle: zero anywhere => InvalidInput on every path; otherwise "
+        "on the largest answered exchanges of every family; extra request settings: all combinations of given / omitted fields through the "
+        "setters, the four protocol conversions and into_extra. Oracle: zero anywhere => InvalidInput on every path; otherwise "
         "accepted unchanged and usable. Non-trivial = every case (all are distinct configurations).")
 ASSUMPTIONS = ["what clap's and serde's derive macros generate is modelled (field-wise construction), not verified",
                "std: set_read_timeout(Some(0)) is Err, connect_timeout(0) is Err, huge durations are clamped (exercised on real sockets)"]
@@ -52,6 +53,24 @@ def run(rep, tier, seed, replay=None):
         exp[cid] = f"EFF r{'-' if r == '-' else '+' + r} w{'-' if w == '-' else '+' + w} c{'-' if c == '-' else '+' + c} n{n}"
     cases.append("seff settings-eff none")
     exp["seff"] = "EFF r+4:0 w+4:0 c+4:0 n0"
+    # extra request settings: every combination of given / omitted fields through the public setters, what each protocol's
+    # settings make of them (documented defaults: Valve players Try, rules Try, app-id check on; Unreal 2 mutators-and-rules
+    # Enforce, players Try; Minecraft host name "gamedig", protocol version -1) and what into_extra gives back
+    for h, pv, gp, gr, ck in itertools.product(["-", "6d63", "-e"], ["-", "47", "-1", "2147483647", "-2147483648"], "-ste", "-ste", "-TF"):
+        k += 1
+        cid = f"s{k}"
+        hh = "-" if h == "-" else ("" if h == "-e" else h)
+        harg = "-" if h == "-" else (hh or "-")  # an empty host name cannot be told from an omitted one on the case line
+        if h == "-e":
+            continue
+        cases.append(f"{cid} extra-conv E{harg}:{pv}:{gp}:{gr}:{ck}")
+        vp, vr, vc = (gp if gp != "-" else "t"), (gr if gr != "-" else "t"), (ck if ck != "-" else "T")
+        ur, up = (gr if gr != "-" else "e"), (gp if gp != "-" else "t")
+        mh = "x" + (hh if h != "-" else b"gamedig".hex())
+        mpv = pv if pv != "-" else "-1"
+        xh = "-" if h == "-" else "x" + hh
+        exp[cid] = (f"X {xh}:{pv}:{gp}:{gr}:{ck} | valve {vp}{vr}{vc} u2 {ur}{up} mc {mh}/{mpv} | "
+                    f"vx -:-:{vp}:{vr}:{vc} ux -:-:{up}:{ur}:-")
     flag_sets = list(itertools.product(FLAGS, repeat=3))
     if tier == "quick":
         flag_sets = rnd.sample(flag_sets, 250) + [("_", "_", "_"), ("0", "_", "_"), ("_", "0", "_"), ("_", "_", "0")]
